@@ -25,6 +25,7 @@ import (
 	"github.com/acquirecloud/golibs/container/lru"
 
 	"verifharness/internal/report"
+	"verifharness/internal/shard"
 )
 
 func TestMain(m *testing.M) { os.Exit(report.ExitCode(m.Run())) }
@@ -1302,12 +1303,154 @@ func decode(h uint64) string {
 	return fmt.Sprintf("%s cap=%d order(LRU first)=%v %s -> %s", vn, cp, st, op{K: k, Key: key, Alt: alt}, cn)
 }
 
+// staleOrigin (child process): ExpirableCache whose create function serves already expired items - for the first
+// attempt of a call, for several attempts, or for as long as the call runs. The statement does not say how many
+// replacement rounds one call makes nor whether it may return a stale item, so only what it does determine is
+// judged: the call returns; every created item that is not the returned one leaves with exactly one delete
+// callback (right key, right value); entries that stay resident get none; at most the least recently used
+// resident is evicted; the capacity holds and the recency list is consistent (hook).
+func staleOrigin(res *shard.Result) {
+	type cfg struct {
+		Cap      int   `json:"cap"`
+		Resident []int `json:"resident"` // keys inserted (fresh) before, least recently used first
+		Key      int   `json:"key"`
+		ExpireIt bool  `json:"expire_resident_key"`
+		Stale    int   `json:"stale_attempts"` // -1: every attempt while the call runs
+	}
+	var cfgs []cfg
+	for cp := 1; cp <= 3; cp++ {
+		for _, stale := range []int{1, 2, 5, -1} {
+			cfgs = append(cfgs, cfg{Cap: cp, Key: 7, Stale: stale})
+			full := []int{}
+			for i := 0; i < cp; i++ {
+				full = append(full, i)
+			}
+			cfgs = append(cfgs, cfg{Cap: cp, Resident: full, Key: 7, Stale: stale})
+			cfgs = append(cfgs, cfg{Cap: cp, Resident: full, Key: 0, ExpireIt: true, Stale: stale})
+		}
+	}
+	for _, c := range cfgs {
+		var reg []*xval
+		var creates []int
+		type del struct{ key, id int }
+		var dels []del
+		staleLeft, inCall := 0, false
+		create := func(key int) (*xval, error) {
+			id := len(reg) + 1
+			at := farFuture
+			if inCall && (staleLeft < 0 || staleLeft > 0) {
+				at = farPast
+				if staleLeft > 0 {
+					staleLeft--
+				}
+			}
+			v := &xval{lru.NewCacheItem(id, at)}
+			reg = append(reg, v)
+			if inCall {
+				creates = append(creates, id)
+			}
+			return v, nil
+		}
+		cache, err := lru.NewExpirableCache[int, *xval](c.Cap, create, func(key int, v *xval) { dels = append(dels, del{key, v.Value}) })
+		if err != nil {
+			res.Violation("lru/expirable/constructor/rejects-valid", err.Error(), c)
+			continue
+		}
+		resident := map[int]int{} // key -> id
+		for _, k := range c.Resident {
+			v, _ := cache.GetOrCreate(k)
+			resident[k] = v.Value
+		}
+		if c.ExpireIt {
+			reg[resident[c.Key]-1].ExpirableItem = lru.NewCacheItem(resident[c.Key], farPast)
+		}
+		dels = dels[:0]
+		staleLeft, inCall = c.Stale, true
+		got, gerr := cache.GetOrCreate(c.Key) // a call that never returns ends the child (stack overflow / watchdog)
+		inCall = false
+		res.Evals++
+		res.Counters["stale_origin_calls"]++
+		res.Classes = append(res.Classes, fmt.Sprintf("stale-origin|cap=%d|resident=%d|expired-resident=%v|stale=%d|creates=%d", c.Cap, len(c.Resident), c.ExpireIt, c.Stale, len(creates)))
+		bad := func(sig, what string) {
+			res.Violation("lru/expirable/stale-origin/"+sig, fmt.Sprintf("capacity %d, residents %v, GetOrCreate(%d) with an origin serving stale items (%d attempts, -1 = always; resident key expired: %v): %s; creations %v, delete callbacks %v", c.Cap, c.Resident, c.Key, c.Stale, c.ExpireIt, what, creates, dels), c)
+		}
+		if gerr != nil || got == nil {
+			bad("error", fmt.Sprintf("returned (%v, %v) although every creation succeeded", got, gerr))
+			continue
+		}
+		if len(creates) == 0 || got.Value != creates[len(creates)-1] {
+			bad("value", fmt.Sprintf("returned value #%d is not the item created last", got.Value))
+			continue
+		}
+		cnt := map[int]int{}
+		for _, d := range dels {
+			cnt[d.id]++
+		}
+		for _, id := range creates[:len(creates)-1] {
+			if cnt[id] != 1 {
+				bad("delete-calls", fmt.Sprintf("item #%d was created and replaced but got %d delete callbacks", id, cnt[id]))
+			}
+			delete(cnt, id)
+		}
+		if cnt[got.Value] != 0 {
+			bad("delete-calls", fmt.Sprintf("the returned (resident) item #%d got a delete callback", got.Value))
+		}
+		delete(cnt, got.Value)
+		if c.ExpireIt {
+			if cnt[resident[c.Key]] != 1 {
+				bad("delete-calls", fmt.Sprintf("the expired resident item #%d got %d delete callbacks", resident[c.Key], cnt[resident[c.Key]]))
+			}
+			delete(cnt, resident[c.Key])
+		}
+		// whatever is left are evictions of older residents: at most one, and only the least recently used one
+		for id, n := range cnt {
+			lruKey := -1
+			for _, k := range c.Resident {
+				if !(c.ExpireIt && k == c.Key) {
+					lruKey = k
+					break
+				}
+			}
+			if n != 1 || lruKey < 0 || id != resident[lruKey] || len(c.Resident) < c.Cap || c.ExpireIt {
+				bad("delete-calls", fmt.Sprintf("unexpected delete callback(s) for item #%d (x%d)", id, n))
+			}
+		}
+		for _, d := range dels {
+			want := -1
+			for k, id := range resident {
+				if id == d.id {
+					want = k
+				}
+			}
+			if want < 0 {
+				want = c.Key
+			}
+			if d.key != want {
+				bad("delete-calls", fmt.Sprintf("delete callback for item #%d came with key %d, want %d", d.id, d.key, want))
+			}
+		}
+		if _, length, inflight, herr := cache.VerifRetained(); herr != nil || length > c.Cap || inflight != 0 {
+			bad("hook", fmt.Sprintf("after the call: %d resident (capacity %d), %d in flight, list check: %v", length, c.Cap, inflight, herr))
+		}
+	}
+}
+
+func TestChild(t *testing.T) {
+	if _, _, _, ok := shard.Child(); !ok {
+		t.Skip("not a shard child")
+	}
+	debug.SetMaxStack(64 << 20) // a GetOrCreate that re-enters itself for ever ends quickly
+	res := shard.NewResult()
+	staleOrigin(res)
+	shard.Emit(res)
+}
+
 func TestCheck(t *testing.T) {
 	run := report.New("C08", "exploration")
 	defer run.Finish(t)
 	run.Rule("every legal call sequence over {GetOrCreate(k) with a succeeding create, GetOrCreate(k) with a failing create, Remove(k), Clear (, Expire(k) for the expirable variant; both spellings of k for the ECache variant)} to the stated depth for capacities 1..4 on lru.Cache, lru.ECache(strings.ToLower) and lru.ExpirableCache, with and without a delete callback, each followed by an ending that exposes the whole recency order (Clear, or probe + cap fresh insertions + Clear); plus seeded random sequences of 10^3..10^4 calls for capacities up to 64 over about 2*capacity keys; after every call the returned value/error/bool/count, the create-callback calls and the delete-callback calls of that call and the resident count (hook) are compared with a list model. distinct = distinct (variant, callback present, capacity, recency order of resident keys incl. stored spelling and expired flag, operation, outcome class) transitions observed (for capacities > 4 the order is replaced by the number of residents)")
 	run.Assume("single goroutine per cache (concurrency is C09)")
-	run.Assume("expirable variant: items are created fresh (expiry year 2400) and become expired only by the harness moving the resident item's expiry to 1971 (custom CacheItem embedding lru.ExpirableItem); a create function that returns an already expired item and a failing re-creation of an expired resident are not generated because the statement does not define them")
+	run.Assume("expirable variant: items are created fresh (expiry year 2400) and become expired only by the harness moving the resident item's expiry to 1971 (custom CacheItem embedding lru.ExpirableItem); in the model-checked sequences a create function that returns an already expired item and a failing re-creation of an expired resident are not generated because the statement does not define them; origins serving stale items are driven separately (child process) and judged only on what the statement determines: the call returns, replaced items get exactly one delete callback, the resident one none, at most the least recently used resident is evicted")
 	run.Assume("the order of the delete callbacks inside one Clear is taken to be least-recently-used first (DESIGN §3 C08); a reordering is reported under its own signature …/Clear[clear]/callback-order")
 	run.Assume("the relative order of create-callback and delete-callback calls inside one call is not judged")
 
@@ -1319,6 +1462,9 @@ func TestCheck(t *testing.T) {
 	defer debug.SetGCPercent(debug.SetGCPercent(400))
 	col := &collector{seen: map[uint64]struct{}{}}
 	constructorChecks(run)
+	for c := range shard.Run(run, "TestChild", "stale-origin", 1, 10*time.Minute) {
+		run.DistinctStr(c)
+	}
 	enumerateAll(run, col, configs(run.Thorough()))
 	randomAll(run, col, run.Pick(400, 6000), 1000, 10000)
 
